@@ -60,6 +60,11 @@ func DescribedMap(desc string) map[expr.Operator]driver.RenderFN {
 			m[k] = v
 		}
 		m[arg] = TraceFn(arg)
+	case "override-inplace":
+		// the override written into the map of a driver returned by NewPostgresDriver (not into a copy of it)
+		d := driver.NewPostgresDriver()
+		d.RenderFNs[arg] = TraceFn(arg)
+		return d.RenderFNs
 	case "fail":
 		for _, op := range AllOps {
 			m[op] = TraceFn(op)
